@@ -45,6 +45,6 @@ Print Assumptions c01_fault_free_requests_complete.
 From GB Require Import Model.ForwardRun Proofs.CheckerProofs.
 Theorem c01_bytes_statement_exact : forall input impl,
   prop_c01_bytes input impl = None <->
-  nthv 0 impl = nthv 1 input /\ nthv 1 impl = nthv 2 input /\ as_Z (nthv 2 impl) = 0.
+  nthv 0 impl = nthv 1 input /\ nthv 1 impl = nthv 2 input /\ nthv 2 impl = nthv 3 input.
 Proof. exact c01_bytes_exact. Qed.
 Print Assumptions c01_bytes_statement_exact.
